@@ -3,8 +3,7 @@ CONSTANTS
   MaxReform = 1
   MaxDepth = 2
   MaxRoots = 1
-  RootFilter = {"users", "allPets", "nestedType", "categories"}
+  RootFilter = {"users", "user", "allPets", "nestedType", "recursiveType", "search", "performAction", "testContainers", "nullableFieldsType", "createUser", "blogPost"}
   Mut = "none"
-SPECIFICATION Spec
-CONSTRAINT GenConstraint
+SPECIFICATION GenSpec
 CHECK_DEADLOCK FALSE
